@@ -13,8 +13,8 @@ CONSTANTS
   MaxPrune = 1
   MaxImp = 2
   MaxAck = 1
-  MaxForeign = 1
-  MaxReset = 1
+  MaxForeign = 0
+  MaxReset = 0
   MaxCrash = 2
   MinWork = 0
   Controlled = FALSE
